@@ -989,11 +989,13 @@ func (ex *Exec) instrs(st *State, fr *Frame, b *ssa.BasicBlock, i int, k Cont) {
 			ch := ex.val(st, fr, x.Chan)
 			v := ex.val(st, fr, x.X)
 			ex.ctxAware(st, fr, x, "send", false)
+			ex.escapes(st, fr, x, "send", nil)
 			ex.doSend(st, fr, x, ch, v, true)
 		case *ssa.UnOp:
 			if x.Op == token.ARROW {
 				ch := ex.val(st, fr, x.X)
 				ex.ctxAware(st, fr, x, "recv", strings.HasPrefix(ch.Origin, "ctxdone:"), strings.TrimPrefix(ch.Origin, "ctxdone:"))
+				ex.escapes(st, fr, x, "recv", []string{ch.T})
 				fr.vals[x] = ex.doRecv(st, fr, x, ch, x.CommaOk, x.Type())
 				continue
 			}
@@ -1149,6 +1151,19 @@ func (ex *Exec) simple(st *State, fr *Frame, in ssa.Instruction) {
 		st.write(chlenArr(v), "Int", ref, "0")
 		ord := ex.ordinalOf(fr, x, "makechan")
 		classed := false
+		nc := false
+		if fr.spec != nil {
+			for _, g := range fr.spec.MakeChans {
+				if g.Ord == ord && g.NC {
+					nc = true
+				}
+			}
+		}
+		if nc {
+			st.assume("(ch_nc " + ref + ")")
+		} else {
+			st.assume("(not (ch_nc " + ref + "))")
+		}
 		if fr.spec != nil {
 			for _, g := range fr.spec.MakeChans {
 				if g.Ord == ord {
@@ -1368,6 +1383,27 @@ func resolveCell(v ssa.Value) (string, bool) {
 }
 
 // ctxAware: in functions marked ctxaware a blocking channel operation needs a ctx.Done() alternative.
+// escapes: every blocking channel operation of a function with `escape <ch>` clauses offers a receive
+// on that channel (recvChans: the channels of the receive cases of the select; none for a bare operation)
+func (ex *Exec) escapes(st *State, fr *Frame, instr ssa.Instruction, what string, recvChans []string) {
+	sp := fr.spec
+	if sp == nil {
+		return
+	}
+	for _, c := range sp.Escape {
+		want := ex.evalSpec(st, fr, c.Expr, nil)
+		var alts []string
+		for _, rc := range recvChans {
+			alts = append(alts, "(= "+rc+" "+want.T+")")
+		}
+		goal := "false"
+		if len(alts) > 0 {
+			goal = smtOr(alts...)
+		}
+		ex.oblige(st, "escape", fmt.Sprintf("%s#escape@%s#%d.%s", fr.key, what, ex.ordinalOf(fr, instr, what), c.name()), c.Labels, goal, c, ex.posOf(instr))
+	}
+}
+
 func (ex *Exec) ctxAware(st *State, fr *Frame, instr ssa.Instruction, what string, ok bool, ctxs ...string) {
 	sp := fr.spec
 	if sp != nil && sp.NonBlock != nil {
